@@ -139,8 +139,13 @@ def run(ctx) -> None:
         bo = base_obs[b["name"]]
         if (o["ok"], o["calls"], o["labels"]) != (bo["ok"], bo["calls"], bo["labels"]):
             raise tlc.TLCFailure(f"piecer changed the meaning of base {b['name']}")
+    for name, bo in list(base_obs.items()):
+        if not bo["ok"]:
+            ctx.note(f"base {name} does not assemble: skipped (not a layout question)")
     recs = []
     for k, ((b, acts), o) in enumerate(zip(meta, res)):
+        if not base_obs[b["name"]]["ok"]:
+            continue
         if o.get("hang"):
             ctx.violation(f"hang:{b['name']}", "variant did not terminate", {"task": tasks[k]})
             continue
